@@ -246,6 +246,11 @@ static void gen_cache(vh_rng_t *rng)
   if (vh_chance(rng, 1, 2)) {
     app_cfg.qcache_max_ttl = 3600;
   }
+  if (vh_chance(rng, 1, 3)) {
+    static const uint32_t et[] = { 5, 60, 600, 3600 };
+    sim_error_soa_ttl          = et[vh_below(rng, 4)];
+    sim_note("cache_error_replies_carry_soa");
+  }
   mon_enable_idx = mon_enable_fd = mon_enable_timer = 0;
   net_unique_names                                  = 0;
   mon_enable_net                                    = 0;
@@ -265,7 +270,7 @@ static void gen_cache(vh_rng_t *rng)
       memset(r, 0, sizeof(*r));
       snprintf(r->name, sizeof(r->name), "%s", names[k]);
       r->action = a < 50 ? SA_ANSWER : a < 62 ? SA_NXDOMAIN : a < 74 ? SA_NODATA : a < 80 ? SA_NODATA_NOSOA : a < 85 ? SA_NXDOMAIN_NOSOA
-                  : a < 91 ? SA_SERVFAIL : a < 96 ? SA_TC : SA_REFUSED;
+                  : a < 88 ? SA_SERVFAIL : a < 91 ? SA_FORMERR_OPT : a < 96 ? SA_TC : a < 98 ? SA_REFUSED : SA_NOTIMP;
       r->nrec        = vh_range(rng, 1, 3);
       r->ttl         = ttls[vh_below(rng, sizeof(ttls) / sizeof(ttls[0]))];
       r->cname_chain = 0;
